@@ -261,7 +261,7 @@ def build(ast, T=None, opts=None):
 # ------------------------------------------------------------------------------------------------
 # Reference interpreter
 
-ERRTYPES = {"ValueError": ValueError, "KeyError": KeyError}
+ERRTYPES = {"ValueError": ValueError, "KeyError": KeyError, "TypeError": TypeError, "IndexError": IndexError, "AttributeError": AttributeError}
 
 
 def V(v):
@@ -452,7 +452,14 @@ def ref(ast, T=None) -> frozenset:
 
 
 def apply_task(name, args, kwargs) -> frozenset:
-    """Reference semantics of the task library (what the function returns, reduced to a value)."""
+    """Reference semantics of the task library; an operation Python refuses (e.g. 'a' + 1 for a rich-family string leaf) is the task's error."""
+    try:
+        return _apply_task(name, args, kwargs)
+    except (TypeError, KeyError, IndexError, AttributeError) as e:
+        return E(type(e).__name__, str(e))
+
+
+def _apply_task(name, args, kwargs) -> frozenset:
     a = args
     if name == "inc":
         return V(a[0] + 1)
